@@ -179,7 +179,9 @@ Inductive dup_act := DAsIs | DTimesN | DInconsistent.
 Inductive sc_guard := GNotTuple | GNotList | GValuesIsList.
 Inductive sc_atom := ScLevelEq (k : nat) | ScLenEq (k : nat) | ScFirstLenEqN.
 (* FieldWrapper.default: `if self.is_reused and default is not None:` if/elif chain; every arm is default = [default] * n *)
-Inductive pk_test := PkContainerTypeAndLenNeN | PkNotIsList.
+Inductive pk_test :=
+| PkSingleValue                      (* `single_value`: the default is one value, not one per destination (repaired trees only) *)
+| PkContainerTypeAndLenNeN | PkNotIsList.
 Inductive nargs := NStar | NPlus.
 
 Section WithFacts.
@@ -252,22 +254,24 @@ Section WithFacts.
   Definition py_len (v : val) : option nat :=
     match v with VList l | VTuple l => Some (List.length l) | VStr s => Some (String.length s) | _ => None end.
 
-  Fixpoint run_pk (chain : list pk_test) (is_tl : bool) (n : nat) (d : val) : res val :=
+  Fixpoint run_pk (chain : list pk_test) (is_tl single : bool) (n : nat) (d : val) : res val :=
     match chain with
     | [] => Ok d
+    | PkSingleValue :: r => if single then Ok (VList (repeat d n)) else run_pk r is_tl single n d
     | PkContainerTypeAndLenNeN :: r =>
         if is_tl then
           match py_len d with
           | None => Err (Raise "TypeError")
-          | Some k => if Nat.eqb k n then run_pk r is_tl n d else Ok (VList (repeat d n))
+          | Some k => if Nat.eqb k n then run_pk r is_tl single n d else Ok (VList (repeat d n))
           end
-        else run_pk r is_tl n d
-    | PkNotIsList :: r => match d with VList _ => run_pk r is_tl n d | _ => Ok (VList (repeat d n)) end
+        else run_pk r is_tl single n d
+    | PkNotIsList :: r => match d with VList _ => run_pk r is_tl single n d | _ => Ok (VList (repeat d n)) end
     end.
 
-  (* d = the python object `default` before packaging; result = one entry per destination *)
-  Definition package_default (n : nat) (k : kind) (d : val) : res (list val) :=
-    match run_pk pk_chain (is_list_kind k || is_tuple_kind k) n d with
+  (* d = the python object `default` before packaging, single = it is ONE value (the field's own default, or the only
+     default of the merged wrapper) rather than a list with one entry per destination; result = one entry per destination *)
+  Definition package_default (n : nat) (k : kind) (single : bool) (d : val) : res (list val) :=
+    match run_pk pk_chain (is_list_kind k || is_tuple_kind k) single n d with
     | Err e => Err e
     | Ok p => match p with
               | VList l | VTuple l => if Nat.eqb (List.length l) n then Ok l else Err (Raise "AssertionError")
@@ -363,18 +367,19 @@ Section WithFacts.
      explicit = per registered wrapper, the field's value in add_arguments(default=...) (top-level wrappers only);
      a top-level wrapper without default has `defaults == []` re-created on every access, so extending it is lost;
      a nested wrapper's defaults are seeded from the parent's field (default_factory), one entry per destination. *)
-  Definition default_object (first_top : bool) (n : nat) (cd : option val) (explicit : list (option val)) : res (option val) :=
+  Definition default_object (first_top : bool) (n : nat) (cd : option val) (explicit : list (option val))
+    : res (option (val * bool)) :=
     if first_top then
       match explicit with
       | Some e0 :: _ =>
           match flat_map (fun o => match o with Some e => [e] | None => [] end) explicit with
-          | [e] => Ok (Some e)
-          | es => Ok (Some (VList es))
+          | [e] => Ok (Some (e, true))
+          | es => Ok (Some (VList es, false))
           end
-      | _ => Ok cd
+      | _ => Ok (option_map (fun d => (d, true)) cd)
       end
     else match cd with
-         | Some d => Ok (Some (VList (repeat d n)))
+         | Some d => Ok (Some (VList (repeat d n), false))
          | None => Err (Raise "TypeError")                 (* default_factory of the member cannot build the class *)
          end.
 
@@ -400,7 +405,10 @@ Section WithFacts.
     let n := List.length merged in
     let first_top := Nat.eqb (level (hd "" merged)) 1 in
     bind (default_object first_top n cd explicit) (fun dobj =>
-    bind (match dobj with None => Ok None | Some d => bind (package_default n k d) (fun l => Ok (Some l)) end) (fun pd =>
+    bind (match dobj with
+          | None => Ok None
+          | Some (d, single) => bind (package_default n k single d) (fun l => Ok (Some l))
+          end) (fun pd =>
     bind (distribute n k pd cli) (fun out =>
     map_res (fun d => observe first_top cd d (assoc d (combine merged out))) dests)))).
 End WithFacts.
